@@ -46,8 +46,7 @@ func match(filter CompFilter, comp *ical.Component) (bool, error) {
 		return false, nil
 	}
 
-	var zeroDate time.Time
-	if filter.Start != zeroDate {
+	if !filter.Start.IsZero() || !filter.End.IsZero() {
 		match, err := matchCompTimeRange(filter.Start, filter.End, comp)
 		if err != nil {
 			return false, err
@@ -108,8 +107,7 @@ func matchPropFilter(filter PropFilter, comp *ical.Component) (bool, error) {
 		}
 	}
 
-	var zeroDate time.Time
-	if filter.Start != zeroDate {
+	if !filter.Start.IsZero() || !filter.End.IsZero() {
 		match, err := matchPropTimeRange(filter.Start, filter.End, field)
 		if err != nil {
 			return false, err
@@ -127,48 +125,68 @@ func matchPropFilter(filter PropFilter, comp *ical.Component) (bool, error) {
 	return true, nil
 }
 
+// intervalOverlaps reports whether the half-open interval [evStart, evEnd)
+// overlaps the time range [start, end), as defined in RFC 4791 section 9.9. A
+// zero start or end means that the time range is open on that side. If evEnd
+// isn't after evStart, the interval is an instant.
+func intervalOverlaps(start, end, evStart, evEnd time.Time) bool {
+	if !end.IsZero() && !evStart.Before(end) {
+		return false
+	}
+	if start.IsZero() {
+		return true
+	}
+	if evEnd.After(evStart) {
+		return evEnd.After(start)
+	}
+	return !evStart.Before(start)
+}
+
 func matchCompTimeRange(start, end time.Time, comp *ical.Component) (bool, error) {
 	// See https://datatracker.ietf.org/doc/html/rfc4791#section-9.9
 
-	// evaluate recurring components
 	rset, err := comp.RecurrenceSet(start.Location())
 	if err != nil {
 		return false, err
 	}
-	if rset != nil {
-		// TODO we can only set inclusive to true or false, but really the
-		// start time is inclusive while the end time is not :/
-		return len(rset.Between(start, end, true)) > 0, nil
-	}
 
 	// TODO handle more than just events
-	if comp.Name != ical.CompEvent {
+	var eventStart, eventEnd time.Time
+	if comp.Name == ical.CompEvent {
+		event := ical.Event{comp}
+		eventStart, err = event.DateTimeStart(start.Location())
+		if err != nil {
+			return false, err
+		}
+		eventEnd, err = event.DateTimeEnd(end.Location())
+		if err != nil {
+			return false, err
+		}
+	} else if rset == nil {
 		return false, nil
 	}
-	event := ical.Event{comp}
 
-	eventStart, err := event.DateTimeStart(start.Location())
-	if err != nil {
-		return false, err
-	}
-	eventEnd, err := event.DateTimeEnd(end.Location())
-	if err != nil {
-		return false, err
+	if rset != nil {
+		// evaluate recurring components: each instance lasts as long as
+		// the event itself
+		var dur time.Duration
+		if eventEnd.After(eventStart) {
+			dur = eventEnd.Sub(eventStart)
+		}
+		next := rset.Iterator()
+		for {
+			instStart, ok := next()
+			if !ok || (!end.IsZero() && !instStart.Before(end)) {
+				// instances are sorted by start time
+				return false, nil
+			}
+			if intervalOverlaps(start, end, instStart, instStart.Add(dur)) {
+				return true, nil
+			}
+		}
 	}
 
-	// Event starts in time range
-	if eventStart.After(start) && (end.IsZero() || eventStart.Before(end)) {
-		return true, nil
-	}
-	// Event ends in time range
-	if eventEnd.After(start) && (end.IsZero() || eventEnd.Before(end)) {
-		return true, nil
-	}
-	// Event covers entire time range plus some
-	if eventStart.Before(start) && (!end.IsZero() && eventEnd.After(end)) {
-		return true, nil
-	}
-	return false, nil
+	return intervalOverlaps(start, end, eventStart, eventEnd), nil
 }
 
 func matchPropTimeRange(start, end time.Time, field *ical.Prop) (bool, error) {
@@ -178,10 +196,7 @@ func matchPropTimeRange(start, end time.Time, field *ical.Prop) (bool, error) {
 	if err != nil {
 		return false, err
 	}
-	if ptime.After(start) && (end.IsZero() || ptime.Before(end)) {
-		return true, nil
-	}
-	return false, nil
+	return intervalOverlaps(start, end, ptime, ptime), nil
 }
 
 func matchParamFilter(filter ParamFilter, field *ical.Prop) bool {
